@@ -165,6 +165,7 @@ def run(repo, res):
     # ---- R7 star imports ---------------------------------------------------------------------------
     from .. import resolve_model as M
     M.check_star_imports(repo, res, 'C01-R7')
+    M.check_module_level_globals(repo, res, 'C01-R2')
 
     # ---- R6 lint / assist wiring -------------------------------------------------------
     lint = repo.module_func(LINTER, 'lint')
